@@ -205,6 +205,23 @@ PROPS['C19'] = {
     ],
 }
 
+PROPS['C06'] = {
+    'title': 'Centroid is the centre of mass of the highest-dimensional part',
+    'level': 'proof',
+    'verus': [],
+    'kani': [
+        ('geo', 'c06.rs', r'^c06_k_(weighted_centroid_algebra|operation_none_iff_empty|centroid_none_iff_empty)$', 'complete', 'quick'),
+        ('geo', 'c06.rs', r'^c06_k_operation_early_outs$', 'bounded', 'quick'),
+        ('geo', 'c06.rs', r'^c06_k_zero_area_polygon', 'bounded', 'thorough'),
+    ],
+    'trusted': ['f64::hypot is replaced by the model sqrt(a*a + b*b) (the libm function is a foreign call Kani cannot execute)',
+                'accumulator algebra: complete over all dimension pairs and finite f64 weights up to 1e100'],
+    'undecided_clauses': [
+        'numeric clauses: centre of mass within rounding tolerance, convex-hull containment, covariance under translation and uniform scaling, polygon ring formula accuracy',
+        'mixed-dimension GeometryCollections through the public API (recursive Geometry delegation is intractable for CBMC here); the accumulator they feed IS under contract',
+    ],
+}
+
 NOT_APPLICABLE = {
     'C16': 'every clause is an identity between compositions of sin/cos/atan2/asin/sqrt/tan/ln in f64 (or calls into geographiclib-rs); Verus leaves float arithmetic uninterpreted and CBMC models libm as nondeterministic, so no contract stronger than "returns an f64" is provable',
     'C20': '2-safety hyper-property over runs, thread-pool sizes and hash seeds; Kani has no threads and compiles RandomState/rayon away, Verus cannot parse the rayon/hashbrown code; no contract within reach can express it',
